@@ -52,7 +52,9 @@ SECRET_MARK = b'C13-SECRET-FILE-CONTENT-7f3a'
 ENTITY_MARK = b'C13ENTITYEXPANDED'
 WATCHDOG = 30.0
 HOSTILE = ['', '-1', '0', '99999999999999999999999999999999', '1e999', 'NaN', 'no.such.handle', ' ', 'true', 'P99999999999Y',
-           '-PT1S', 'x' * 3000, 'urn:uuid:00000000-0000-0000-0000-000000000000', 'http://[', 'ä€\U0001F600']
+           '-PT1S', 'x' * 3000, 'urn:uuid:00000000-0000-0000-0000-000000000000', 'http://[', 'ä€\U0001F600',
+           # handles that exist, but name an entity of another kind than the request means
+           'numeric.ch0.vmd0', 'ch0.vmd0', 'mds0']
 
 
 HEADER_VALUES = ['', ' ', '[::1', 'localhost:http', '10.0.0.1:99999', 'a' * 9000, '\x01', 'ä', '-1', 'evil.example', 'a b', '*',
@@ -255,6 +257,9 @@ class Target:
                     tr.get_state(h).OperatingHours = 11
         attempt(two_components)                                # a component report with two states of different classes
         attempt(lambda: A.EVENT_BY_NAME['location(2)'](p))     # a context report with two states (old one disassociated)
+        # description modification reports that change indexed members (ConditionSignaled, Source) and carry the state
+        for name in ('update-cond-signaled', 'update-alert-source'):
+            attempt(lambda name=name: A.EVENT_BY_NAME[name](p))
         subs = list(c.subscription_mgr.subscriptions.values())
         for sub in subs:
             attempt(lambda sub=sub: sub.renew(30))
@@ -269,8 +274,14 @@ class Target:
             if side == 'consumer':
                 service = 'notify' if not service.endswith('_e') else 'end'
             depth = 'sub' if (side == 'provider' and len(els) > 3) else ''
+            if _tag(msg.data) == 'DescriptionModificationReport':
+                m = re.search(rb'<[A-Za-z0-9_]*:?Descriptor [^>]*type="[A-Za-z0-9_]*:?([A-Za-z]+)"', msg.data)
+                service += '' if m is None else ''
+                dmr_kind = m.group(1).decode() if m else ''
+            else:
+                dmr_kind = ''
             multi = '#multi' if len(re.findall(rb'<[A-Za-z0-9_]*:?(?:MetricState|ContextState|AlertState|ComponentState)[ >]', msg.data)) > 1 else ''
-            key = f'{side}:{service}{"/" + depth if depth else ""}:{_tag(msg.data)}{multi}'
+            key = f'{side}:{service}{"/" + depth if depth else ""}:{_tag(msg.data)}{multi}{("#" + dmr_kind) if dmr_kind else ""}'
             if key not in corpus:
                 corpus[key] = {'key': key, 'side': side, 'path': msg.path, 'data': msg.data, 'ok_status': msg.status}
         return corpus
@@ -286,10 +297,12 @@ class Target:
                                  tuple(sorted(s.filters)) if hasattr(s, 'filters') else None,
                                  round(s.remaining_seconds, 3), s.is_closed(), s.unsubscribed_at is not None, s.notify_errors))
             out['provider-mdib'] = canon.snapshot(self.p.mdib)
+            out['provider-mdib-lookups'] = sorted(canon.mdib_scan(self.p.mdib))
             out['provider-subscriptions'] = sorted(subs, key=str)
         if 'consumer' in sides:
             out['consumer-mdib'] = canon.snapshot(self.cm)
             out['consumer-mdib-validity'] = str(self.cm._state)
+            out['consumer-mdib-lookups'] = sorted(canon.mdib_scan(self.cm))
             out['consumer-subscriptions'] = [
                 (str(k), v.is_subscribed, v.end_status is not None, round(v.expires_at, 3))
                 for k, v in sorted(self.c.subscription_mgr.subscriptions.items(), key=lambda kv: str(kv[0]))]
